@@ -289,7 +289,9 @@ def ecef2geodetic(x: float, y: float, z: float, a: float = EARTH_EQUATOR_RADIUS,
         N = a / np.sqrt(1 - e2 * sin_lat**2)    # Radius of curvature in the vertical prime
         lat_old = lat
         lat = np.arctan2(z + e2 * N * sin_lat, p)
-    h = p / np.cos(lat) - N
+    # Height from both components: p/cos(lat) - N is 0/0 at the poles and N is undefined when
+    # the first latitude guess already satisfies the stopping criterion (equatorial plane)
+    h = p*np.cos(lat) + z*np.sin(lat) - a*np.sqrt(1.0 - e2*np.sin(lat)**2)
     # Convert to degrees
     lat *= RAD2DEG
     lon *= RAD2DEG
